@@ -247,6 +247,9 @@ PROBES = [
     (N + "probe_c07_nested_effects.mlir", "ifcall", [[7, 9, 0], [7, 9, 1]]),
     (N + "probe_c07_nested_effects.mlir", "forcall", [[7, 9, 0, 0, 1], [7, 9, 0, 2, 1]]),
     (N + "probe_c07_nested_effects.mlir", "zerotrip", [[7, 9, 11, 0, 0, 1], [7, 9, 11, 0, 2, 1]]),
+    (N + "probe_c07_region_op.mlir", "region_cond_setup", [[7, 9, 11, 1, 1], [7, 9, 11, 0, 1], [7, 9, 11, 1, 0]]),
+    (N + "probe_c07_region_op.mlir", "region_setup", [[7, 9, 11, 1], [7, 9, 11, 0]]),
+    (N + "probe_c07_region_op.mlir", "region_call", [[7, 9, 1], [7, 9, 0]]),
     (N + "probe_c01_two_config_loop.mlir", "two_cfg", [[7, 9, 11, 0, 0, 1], [7, 9, 11, 0, 1, 1], [7, 9, 11, 0, 3, 1]]),
 ]
 
